@@ -161,6 +161,24 @@ def main():
                     res.fail(f"law={kind} rotated-tensor", f"law with axes rotated by Q differs from the Q-rotated tensor by {np.abs(mr.C - want).max():.3e}", ident2)
                 if np.abs(mr.C @ mr.S - np.eye(6)).max() > 1e-8:
                     res.fail(f"law={kind} rotated C.S=I", "C S != I for rotated axes", ident2)
+            # 2D laws whose material axes are tilted OUT of the (x, y) plane: the 2D law is still the reduction of the rotated 3D law
+            # (zero out-of-plane STRESS, shear components included, in plane stress; zero out-of-plane strain in plane strain)
+            Qt = rand_rotation(rng, 3)
+            a1t, a2t = Qt[:, 0] * rng.choice([1.0, 2.0]), Qt[:, 1] * rng.choice([1.0, 0.5])
+            C3t = rotate_mandel(C3, Qt)
+            S3t = np.linalg.inv(C3t)
+            for ps in (True, False):
+                identt = dict(ident, axis_1=a1t.tolist(), axis_2=a2t.tolist(), dim=2, planeStress=ps)
+                res.case((rep, kind, "tilted-plane", ps))
+                try:
+                    m2t = law_3d(kind, p, a1=a1t, a2=a2t, dim=2, ps=ps)
+                except Exception as ex:  # noqa: BLE001
+                    res.fail(f"law={kind} 2D law with axes out of the plane raises", f"constructor raised {ex!r}", identt)
+                    continue
+                wantt = np.linalg.inv(S3t[np.ix_(idx, idx)]) if ps else C3t[np.ix_(idx, idx)]
+                if np.abs(m2t.C - wantt).max() > 1e-8 * sc:
+                    res.fail(f"law={kind} plane-{'stress' if ps else 'strain'}-reduction with axes out of the plane",
+                             f"2D law differs from the {'plane-stress condensation' if ps else 'plane-strain restriction'} of the rotated 3D law by {np.abs(m2t.C - wantt).max():.3e}", identt)
         # Get_Pmat for scalar / per-element / per-Gauss-point axes, orthonormal or merely orthogonal
         for dim in (2, 3):
             shape = rng.choice([(), (3,), (2, 2)])
